@@ -49,6 +49,16 @@ impl Req {
         b.seed(self.seed);
         b
     }
+    /// A ratio above one is only used together with a zero starting temperature (where the
+    /// temperature must stay zero whatever the ratio); with a positive start the property's
+    /// factor 1 - ratio would be negative, a configuration the drivers do not generate.
+    pub fn sane(&self) -> Req {
+        let mut r = self.clone();
+        if r.kt_start > 0. && r.kt_ratio.map(|x| x > 1.).unwrap_or(false) {
+            r.kt_ratio = Some(0.5);
+        }
+        r
+    }
     pub fn inner_eff(&self) -> u64 {
         u64::max(1, u64::min(self.inner, self.steps))
     }
@@ -101,6 +111,7 @@ fn panic_msg(e: Box<dyn std::any::Any + Send>) -> String {
 }
 
 pub fn run_scripted(desc: &str, req: &Req, state: Scripted) -> Run {
+    let req = &req.sane();
     let bounds = state.inner.bounds.clone();
     let start_vec = state.vector();
     let reader_state = state.clone();
@@ -147,6 +158,7 @@ pub fn run_real<S>(
 where
     S: State + 'static,
 {
+    let req = &req.sane();
     let j = serde_json::to_value(&state).unwrap_or(Value::Null);
     let bounds = crate::states::declared_bounds(&j, family);
     let start_vec = crate::states::full_vector(&j, family);
